@@ -9,6 +9,13 @@ EXTENDS Naturals, Sequences, TLC, Json
 CONSTANTS MaxOps, MaxDepth, Merge
 
 Keys == {"a", "b", "o"}
+(* overridable pieces of the alphabet (the deep one-key configuration replaces them) *)
+Vias == {"set", "nested"}
+NestKeys == {"o", "a"}
+RemKeys == Keys
+OneKey == {"a"}
+OneVia == {"set"}
+NoKeys == {}
 (* values are tags: "abs" (absent), scalars "v1" "v2", objects "obj0" {} / "obj1" {f:1} / "obj2" {f:2} *)
 IsObj(v) == v \in {"obj0", "obj1", "obj2"}
 SetVals(k) == IF k = "o" THEN {"v1", "obj0"} ELSE {"v1", "v2"}
@@ -52,7 +59,7 @@ Commit == /\ last' = [op |-> "commit", ok |-> TRUE]
 (* a whole-key write, through Facts::set or through set_nested with a path of one segment *)
 Set(k, v) == /\ data' = [data EXCEPT ![k] = v] /\ adata' = [adata EXCEPT ![k] = v]
              /\ logs' = LogTop(k) /\ UNCHANGED snaps
-             /\ \E via \in {"set", "nested"} : last' = [op |-> "set", k |-> k, v |-> v, via |-> via, ok |-> TRUE]
+             /\ \E via \in Vias : last' = [op |-> "set", k |-> k, v |-> v, via |-> via, ok |-> TRUE]
 
 (* set_nested("k.f", x): logs the top-level key, fails without effect unless k holds an object *)
 SetNested(k, x) ==
@@ -71,8 +78,8 @@ RemoveKey(k) == /\ data' = [data EXCEPT ![k] = "abs"] /\ adata' = [adata EXCEPT 
 Next == /\ nops' = nops + 1
         /\ \/ Begin \/ Commit \/ Rollback
            \/ \E k \in Keys : \E v \in SetVals(k) : Set(k, v)
-           \/ \E k \in {"o", "a"} : \E x \in {1, 2} : SetNested(k, x)
-           \/ \E k \in Keys : RemoveKey(k)
+           \/ \E k \in NestKeys : \E x \in {1, 2} : SetNested(k, x)
+           \/ \E k \in RemKeys : RemoveKey(k)
 Spec == Init /\ [][Next]_vars
 
 ---------------------------------------------------------------------------------------
